@@ -6,7 +6,8 @@
 set -u
 PATCH=$(readlink -f "$1"); shift
 PROPS="$*"
-[ -z "$PROPS" ] && PROPS=$(/verif/bin/jsv list | grep -o '^C[0-9]*')
+BIN=${JSV_BIN:-/verif/bin/jsv}
+[ -z "$PROPS" ] && PROPS=$($BIN list | grep -o '^C[0-9]*')
 S=$(mktemp -d /tmp/seedrun.XXXXXX)
 rsync -a --exclude .git --exclude _out /repo/ "$S/repo/"
 if ! (cd "$S/repo" && patch -p1 -s < "$PATCH"); then echo "PATCH DOES NOT APPLY"; rm -rf "$S"; exit 2; fi
@@ -14,7 +15,7 @@ mkdir -p "$S/verif" && cp /verif/known_findings.json "$S/verif/"
 export GOFLAGS=-mod=mod GOPROXY=off GOSUMDB=off GOTOOLCHAIN=local GOWORK=off
 for p in $PROPS; do
   echo $p
-done | xargs -P 6 -I{} sh -c "/verif/bin/jsv check --property {} --tier quick --repo $S/repo --verif $S/verif > $S/{}.log 2>&1; echo \"{} exit=\$?\" >> $S/summary"
+done | xargs -P 6 -I{} sh -c "$BIN check --property {} --tier quick --repo $S/repo --verif $S/verif > $S/{}.log 2>&1; echo \"{} exit=\$?\" >> $S/summary"
 sort "$S/summary"
 for p in $PROPS; do
   if grep -q "^VIOLATION" "$S/$p.log"; then
